@@ -131,7 +131,7 @@ MUTANTS = {
     # ---- C18
     "compile_no_reset": ("core.py", "            self._compiled = False\n            dispatch = getattr(self, \"dispatch\", None)\n            if dispatch is not None:\n                dispatch.__code__ = dispatch.__bootstrap_code__\n                dispatch.__defaults__ = None\n                dispatch.__kwdefaults__ = None\n            raise",
                          "            raise", ["C18"]),
-    "compile_reset_only_exception": ("core.py", "        try:\n            self._compile()\n        except BaseException:", "        try:\n            self._compile()\n        except Exception:", ["C18"]),
+    "compile_reset_only_exception": ("core.py", "                self._compile()\n        except BaseException:", "                self._compile()\n        except Exception:", ["C18"]),
     "compiled_flag_early": ("core.py", "        self.analyze_arguments()\n        dispatch = generate_dispatch(self, self.argument_analysis)", "        self._compiled = True\n        self.analyze_arguments()\n        dispatch = generate_dispatch(self, self.argument_analysis)", ["C18"]),
     "compile_reset_keeps_compiled": ("core.py", "            self._compiled = False\n            dispatch = getattr", "            dispatch = getattr", ["C18"]),
     "publish_primary_first": ("typemap.py", "        for tup, func in reversed(entries):\n            self[tup] = func", "        for tup, func in entries:\n            self[tup] = func", ["C18", "C19"]),
@@ -165,7 +165,7 @@ def apply(d, file, old, new):
     p = os.path.join(d, "src", "ovld", file)
     s = open(p).read()
     if s.count(old) != 1:
-        raise SystemExit(f"mutant text found {s.count(old)} times in {file}: {old!r}")
+        raise LookupError(f"mutant text found {s.count(old)} times in {file}")
     open(p, "w").write(s.replace(old, new))
 
 
@@ -193,7 +193,11 @@ def main(argv):
             continue
         d = make_copy(name)
         try:
-            apply(d, file, old, new)
+            try:
+                apply(d, file, old, new)
+            except LookupError as e:
+                print(f"{name:28s} STALE: {e}", flush=True)
+                continue
             tline = run_tests(d) if tests else "-"
             for p in props:
                 if sel and name not in sel and p not in sel:
